@@ -278,6 +278,7 @@ def run_layout(pid, tier):
                 recs.append(r)
                 back[rid] = (case, obs, tgt, drifted)
         verdicts, tst = trace.evaluate(recs, os.path.join(pl.dir, "trace"))
+        tst.pop("kf_ids", None)
         cov["trace_validation"] = dict(tst, drifted=sum(1 for _, _, d_ in undecided if d_))
         for rid, viol in verdicts.items():
             case, obs, tgt, drifted = back[rid]
